@@ -222,9 +222,9 @@ class Dense:
         sp = self.space
         acc = {}
         for t in self.terms:
-            key = _canon_term(sp, t)
+            cf, key = canon_term_full(sp, t)
             c = acc.get(key)
-            acc[key] = t.coef if c is None else _coef_add(c, t.coef)
+            acc[key] = cf if c is None else _coef_add(c, cf)
         parts = []
         for key in sorted(acc):
             c = acc[key]
@@ -265,8 +265,18 @@ def _align_axes(sp: Space, ref, out, ctx):
     return res
 
 
+def _size_coef(p: P):
+    """a monomial size as a scalar coefficient (None if not a monomial)"""
+    if not p.is_monomial():
+        return None
+    (k, v), = p.t.items()
+    return Coef(Fraction(v), tuple(sorted((a, pw) for a, pw in k)))
+
+
 def _simplify_term(sp: Space, t: Term):
-    """Resolve wire identities, drop unit wires, eliminate δ atoms with an internal wire, drop ones on unit wires."""
+    """Resolve wire identities, drop unit wires, eliminate δ atoms with an internal wire, drop ones on unit wires,
+    evaluate closed all-ones contractions (sum over a wire of 1*1 = its size).  Returns (atoms, out, scalar factor)."""
+    factor = COEF1
     def nw(w):
         return sp.find(w)
     atoms = [Atom(a.name, a.conj, tuple(tuple(nw(w) for w in ax if not sp.is_unit(w)) for ax in a.axes)) for a in t.atoms]
@@ -322,11 +332,32 @@ def _simplify_term(sp: Space, t: Term):
                     atoms.pop(i)
                     changed = True
                     break
-    return atoms, out
+                w = ws[0]
+                out_w = {x for ax in out for x in ax}
+                users = [j for j, b in enumerate(atoms) if w in [x for ax in b.axes for x in ax]]
+                if w not in out_w and all(atoms[j].name == "1" for j in users):
+                    sc = _size_coef(sp.sz(w))
+                    if sc is not None:
+                        # sum over the wire of a product of ones = size of the wire
+                        atoms = [b for j, b in enumerate(atoms) if j not in users]
+                        factor = factor * sc
+                        changed = True
+                        break
+    return atoms, out, factor
+
+
+def canon_term_full(sp: Space, t: Term):
+    """(coefficient incl. evaluated closed sub-networks, canonical text)"""
+    atoms, out, factor = _simplify_term(sp, t)
+    return t.coef * factor, _canon_atoms(sp, atoms, out)
 
 
 def _canon_term(sp: Space, t: Term) -> str:
-    atoms, out = _simplify_term(sp, t)
+    atoms, out, _ = _simplify_term(sp, t)
+    return _canon_atoms(sp, atoms, out)
+
+
+def _canon_atoms(sp: Space, atoms, out) -> str:
     # group atoms by signature; try permutations within groups of identical signature
     sig = lambda a: (a.name, a.conj, tuple(len(ax) for ax in a.axes))
     atoms_sorted = sorted(atoms, key=sig)
@@ -748,6 +779,10 @@ class Block:
                 if not sp.facts.eq(ta, tb):
                     raise TypeViolation(f"elementwise + of tensors whose axis {k} has sizes {sp.facts.norm(ta)!r} and "
                                         f"{sp.facts.norm(tb)!r} (blocks {pa} vs {pb}): torch raises for generic sizes")
+                # refine both partitions to their common refinement (zero segments split freely, constant blocks split into ones)
+                ref = _common_refinement(sp, pa, pb)
+                if ref is not None:
+                    return self.refine_axis(k, ref).add(o.refine_axis(k, ref))
                 raise Unmodelled(f"elementwise sum: axis {k} partitioned as {pa} vs {pb}")
             for x, y in zip(pa, pb):
                 if not sp.facts.eq(x, y):
@@ -761,6 +796,62 @@ class Block:
             else:
                 blocks[key] = v
         return Block(sp, [list(p) for p in self.parts], blocks)
+
+    def refine_axis(self, k, new_parts):
+        """re-partition axis k into the finer `new_parts` (cumulative boundaries of the old partition are boundaries of the new)"""
+        sp = self.space
+        old = self.parts[k]
+        if len(old) == len(new_parts) and all(sp.facts.eq(x, y) for x, y in zip(old, new_parts)):
+            return self
+        runs, j = [], 0
+        for seg in old:
+            acc, run = ZERO, []
+            while not sp.facts.eq(acc, seg):
+                if j >= len(new_parts):
+                    raise Unmodelled("partition refinement does not line up")
+                acc = acc + new_parts[j]
+                run.append(j)
+                j += 1
+                if len(run) > 8:
+                    raise Unmodelled("partition refinement does not line up")
+            runs.append(run)
+        blocks = {}
+        for key, d in self.blocks.items():
+            run = runs[key[k]]
+            if len(run) == 1:
+                blocks[key[:k] + (run[0],) + key[k + 1:]] = d
+                continue
+            # occupied block must be constant (all ones) along the axis to be split
+            one = Block(sp, [[x] for x in d.shape()], {tuple([0] * d.ndim()): d})._split_const_axis(k, [new_parts[r] for r in run])
+            for kk, dd in one.blocks.items():
+                blocks[key[:k] + (run[kk[k]],) + key[k + 1:]] = dd
+        parts = [list(p) for p in self.parts]
+        parts[k] = [P.of(x) for x in new_parts]
+        return Block(sp, parts, blocks)
+
+    def _split_const_axis(self, k, parts):
+        """ones(T) along axis k = concat of ones(p) for p in parts (only for blocks that are all-ones along that axis)"""
+        sp = self.space
+        blocks = {}
+        for key, d in self.blocks.items():
+            for j, psz in enumerate(parts):
+                ts = []
+                for t in d.terms:
+                    ax = [w for w in t.out[k] if not sp.is_unit(w)]
+                    if len(ax) != 1:
+                        raise Unmodelled("splitting a merged/unit axis")
+                    w = sp.find(ax[0])
+                    users = [a for a in t.atoms if w in [sp.find(x) for axx in a.axes for x in axx]]
+                    if len(users) != 1 or users[0].name != "1":
+                        raise Unmodelled("elementwise sum of differently partitioned axes (operand is not constant along the axis)")
+                    nw = sp.new(psz, "split")
+                    atoms = [a for a in t.atoms if a is not users[0]] + [Atom("1", False, ((nw,),))]
+                    ts.append(Term(t.coef, atoms, t.out[:k] + [(nw,)] + t.out[k + 1:]))
+                nk = key[:k] + (j,) + key[k + 1:]
+                blocks[nk] = Dense(sp, ts)
+        new_parts = [list(p) for p in self.parts]
+        new_parts[k] = [P.of(x) for x in parts]
+        return Block(sp, new_parts, blocks)
 
     def _broadcast_axis(self, k, size):
         """torch broadcasting of a *literal* unit axis (a constant built by the code, e.g. ones([1,1,1])) to `size`."""
@@ -788,7 +879,8 @@ class Block:
                 remap.append(None)
                 continue
             o, s = sp.facts.norm(P.of(o)), sp.facts.norm(P.of(s))
-            new_parts, new_index_of_old, pos = _refine(sp, parts[k], o, s)
+            occupied = {key[k] for key in self.blocks}
+            new_parts, new_index_of_old, pos = _refine(sp, parts[k], o, s, occupied)
             remap.append(new_index_of_old)
             parts[k] = new_parts
             idx.append(pos)
@@ -829,7 +921,41 @@ class Block:
         return ps + " {" + "; ".join(bs) + "}"
 
 
-def _refine(sp: Space, parts, o: P, s: P):
+def _common_refinement(sp: Space, pa, pb):
+    """common refinement of two partitions of the same total, or None when the boundaries cannot be ordered"""
+    def bounds(p):
+        out, acc = [], ZERO
+        for x in p:
+            acc = sp.facts.norm(acc + x)
+            out.append(acc)
+        return out
+    ba, bb = bounds(pa), bounds(pb)
+    merged = []
+    i = j = 0
+    while i < len(ba) or j < len(bb):
+        if i < len(ba) and j < len(bb):
+            c = sp.facts.compare(ba[i], "<", bb[j])
+            e = sp.facts.compare(ba[i], "==", bb[j])
+            if e is True:
+                merged.append(ba[i]); i += 1; j += 1
+            elif c is True:
+                merged.append(ba[i]); i += 1
+            elif c is False and e is False:
+                merged.append(bb[j]); j += 1
+            else:
+                return None
+        elif i < len(ba):
+            merged.append(ba[i]); i += 1
+        else:
+            merged.append(bb[j]); j += 1
+    parts, prev = [], ZERO
+    for b in merged:
+        parts.append(sp.facts.norm(b - prev))
+        prev = b
+    return parts
+
+
+def _refine(sp: Space, parts, o: P, s: P, occupied=frozenset()):
     """Refine a partition so that [o, o+s) is exactly one segment.  Returns (new parts, map old index -> new index
     (None when an old segment was split), index of the target segment)."""
     bounds = [ZERO]
@@ -859,6 +985,13 @@ def _refine(sp: Space, parts, o: P, s: P):
             mapping[j] = len(new_parts)
             new_parts.append(p)
     if target is None:
+        total = bounds[-1]
+        if sp.facts.compare(o, ">=", total) is True or sp.facts.compare(end, ">", total) is True:
+            raise TypeViolation(f"slice assignment [{o!r}:{end!r}) lies outside the target axis of size {total!r}")
+        for j in range(len(parts)):
+            if sp.facts.eq(bounds[j], o) and j in occupied and not sp.facts.eq(bounds[j + 1], end):
+                raise TypeViolation(f"slice assignment [{o!r}:{end!r}) starts where the already assigned block [{bounds[j]!r}:{bounds[j + 1]!r}) "
+                                    "starts: the blocks of two operands overlap (the running offset was not advanced)")
         raise Unmodelled(f"slice [{o!r}:{end!r}) cannot be located inside the partition {parts}")
     return new_parts, mapping, target
 
